@@ -126,7 +126,7 @@ STMTS = [
     ("string-only", ["s = 'r = ufn2(3); call usub0'", "r = {e}"], set()),
 ]
 
-CALLERS = ["subroutine", "function", "program", "modproc"]
+CALLERS = ["subroutine", "function", "program", "modproc", "nestedsub"]  # nestedsub: a procedure of a submodule of a submodule
 
 DECLS = [
     "integer :: larr(5), i, r, x, if_count, call_total",
@@ -204,6 +204,10 @@ def program_text(caller, body_lines):
     if caller == "program":
         return (f"module cm\n  implicit none\n{LIB}contains\n{LIBPROCS}end module cm\n"
                 f"program caller\n  use cm\n  implicit none\n{body}end program caller\n")
+    if caller == "nestedsub":
+        return (f"module cm\n  implicit none\n{LIB}contains\n{LIBPROCS}end module cm\n"
+                f"submodule (cm) cs1\n  implicit none\n  integer :: sarr(5)\nend submodule cs1\n"
+                f"submodule (cm:cs1) cs2\n  implicit none\ncontains\n  subroutine caller()\n{body}  end subroutine caller\nend submodule cs2\n")
     if caller == "modproc":
         return (f"module cm\n  implicit none\n{LIB}  interface\n    module subroutine caller()\n    end subroutine caller\n  end interface\ncontains\n{LIBPROCS}end module cm\n"
                 f"submodule (cm) cs\n  implicit none\ncontains\n  module procedure caller\n{body}  end procedure caller\nend submodule cs\n")
@@ -212,6 +216,9 @@ def program_text(caller, body_lines):
 def find_caller(project, caller):
     if caller == "program":
         return project.programs[0]
+    if caller == "nestedsub":
+        sm = [x for x in project.submodules if x.name == "cs2"][0]
+        return [p for p in sm.subroutines if p.name == "caller"][0]
     if caller == "modproc":
         sm = project.submodules[0]
         for coll in ("modprocedures", "modsubroutines", "subroutines"):
@@ -519,7 +526,7 @@ def main(tier, replay_path=None):
         total.merge(st)
     return core.finish(
         PROP, tier, "model_checking", total, t0,
-        rule=(f"{len(STMTS)} statement forms x {len(ATOMS)} expression atoms in either expression slot x 4 calling-unit kinds; nested expressions "
+        rule=(f"{len(STMTS)} statement forms x {len(ATOMS)} expression atoms in either expression slot x 5 calling-unit kinds; nested expressions "
               f"(5 wrappers x atoms) in every statement form" + ("; both slots varied jointly; all ordered pairs of statement forms x 3 expressions" if tier == "thorough" else "")
               + "; fixed source form: 5 statements x every token boundary (and pairs of them) as continuation break x 9 kinds of lines in between x continuation marks"
               + ". distinct_nontrivial = distinct (unit, statement sequence, expressions); states = distinct observed call lists"),
